@@ -524,3 +524,65 @@ func vh_C13_repl() {
 	}
 	vReach("repl")
 }
+
+// vh_C13_threepieces: a text delivered in three pieces (two cuts at any
+// positions), the parser pausing after each of the first two, reads as the
+// whole text does.  Over the feature texts of the chunk harness and forms
+// that stay open across both cuts.
+var vC13ThreeTexts = []string{
+	`(foo bar baz)`, `(a %b c)`, `(a b) -`, `[1 [2 3] 4]`, `(a (b c) d)`, `{x = 1 + 2}`, `(f "s t" 'c')`, "(g `r w` 1)",
+	`(a \ b)`, `(h -Inf 2)`, `(k {p: 1})`, `(a ~@b ^c)`, `(m 1e-3 -4)`, `(n /*c*/ 5)`, `(o #p q)`, `(def v [1 2])  v`,
+}
+
+func vh_C13_threepieces() {
+	vFormatOpaque(true)
+	es := vEnvs(2)
+	whole, pieces := es[0], es[1]
+	txt := vC13ThreeTexts[vChoice("text", len(vC13ThreeTexts))]
+	n := len(txt)
+	c1 := 1 + vChoice("cut1", n-2)
+	c2 := c1 + 1 + vChoice("cut2", n-1-c1)
+	a, errA, pA := vParse(whole, txt)
+	if pA {
+		vDone()
+	}
+	b, errB, pB := vParse(pieces, txt[:c1])
+	if pB {
+		vDone()
+	}
+	if errB != ErrMoreInputNeeded {
+		vDone() // the parser did not pause: the rest would be a new text
+	}
+	feed := func(piece string) {
+		defer func() {
+			if r := recover(); r != nil {
+				switch r.(type) {
+				case vAssumeFailed, vDoneSignal:
+					panic(r)
+				}
+				pB = true
+			}
+		}()
+		pieces.parser.NewInput(bytes.NewBuffer([]byte(piece)))
+		b, errB = pieces.parser.ParseTokens()
+	}
+	feed(txt[c1:c2])
+	vAssert(!pB, "resume-does-not-panic")
+	if pB {
+		return
+	}
+	if errB != ErrMoreInputNeeded {
+		vDone() // complete (or failed) after two pieces: covered by the chunk harness
+	}
+	vReach("paused-twice")
+	feed(txt[c2:])
+	vAssert(!pB, "resume-does-not-panic")
+	if pB {
+		return
+	}
+	vAssert(vErrKind(errA) == vErrKind(errB), "three-pieces-same-error-kind")
+	if errA == nil && errB == nil {
+		vAssert(vSexpListEq(a, b), "three-pieces-same-expressions")
+	}
+	vReach("threepieces")
+}
